@@ -368,6 +368,25 @@ func (s *SvcModel) TokenEvent(i int, token string, tid string) {
 	s.w.MQ.Publish("conn."+c.CID+".token", []byte(p))
 }
 
+// TokenEventCID publishes a token event for a connection id (e.g. the
+// temporary connection of an HTTP request, whose id the service learns from
+// the request payload).
+func (s *SvcModel) TokenEventCID(cid, token string) {
+	s.w.MQ.Publish("conn."+cid+".token", []byte(`{"token":`+token+`}`))
+}
+
+// HTTPCID returns the connection id of the oldest unanswered request made by
+// a temporary HTTP connection ("" if there is none).
+func (s *SvcModel) HTTPCID() string {
+	for _, r := range s.w.MQ.Pending() {
+		f := parseReq(r.Payload)
+		if f.IsHTTP && f.CID != "" {
+			return f.CID
+		}
+	}
+	return ""
+}
+
 // TokenReset publishes system.tokenReset.
 func (s *SvcModel) TokenReset(subject string, tids ...string) {
 	b, _ := json.Marshal(map[string]interface{}{"tids": tids, "subject": subject})
